@@ -212,7 +212,7 @@ func profileConfig(p string, seed uint64) RunConfig {
 		c.Steps = 0
 	}
 	switch p {
-	case "C06", "C09", "C15", "C17":
+	case "C06", "C09", "C15", "C17", "C10", "C11", "C12":
 		// defects that need a history: a pool, a slab, a free list or a cache that only
 		// goes wrong after it has been round once (tens of requests, several cycles)
 		if seed%8 == 5 && c.Steps > 0 && !c.FreeRun && c.MaxRetrans < 10 && c.KernLatency < 200 {
@@ -407,6 +407,8 @@ func newGen(s *Sim) *Gen {
 			g.w["repflood"] = 4
 		case "C15", "C17":
 			g.w["cycle"] = 5
+		case "C10", "C11", "C12":
+			g.w["cycle"] = 4
 		}
 	}
 	if s.cfg.faultOn("n4") {
@@ -1232,7 +1234,17 @@ func (g *Gen) one() (Action, bool) {
 					if g.liveOf(m, slot) != nil {
 						return Action{}, false
 					}
+					if pr := s.cfg.Profile; pr == "C10" || pr == "C11" || pr == "C12" {
+						// sessions with several URRs of any kind, reported on before they go
+						return Action{Op: "send", SMF: m.Idx, Msg: g.estMsg(m, slot)}, true
+					}
 					return Action{Op: "send", SMF: m.Idx, Msg: g.perioEst(m, slot, 1, p)}, true
+				},
+				func() (Action, bool) {
+					if pr := s.cfg.Profile; (pr == "C10" || pr == "C11" || pr == "C12") && g.chance(0.7) {
+						return g.krep()
+					}
+					return Action{}, false
 				},
 				func() (Action, bool) {
 					if g.liveOf(m, slot) == nil {
